@@ -190,19 +190,29 @@ bool Position::is_draw() const
     return rule50() || threefold_repetition() || !enough_material();
 }
 
+int Position::first_history_index() const
+{
+    // a position cannot recur across a capture or a pawn move, and the ring
+    // buffer keeps the last MAX_PLIES keys
+    return std::max({0, _history_counter - 1 - int(_half_move_counter),
+                     _history_counter - MAX_PLIES});
+}
+
 bool Position::threefold_repetition() const
 {
     int count = 1;
-    for (int i = _history_counter - 2; i >= 0; --i)
-        if (_history[i] == _zobrist_hash.get_key())
+    const int first = first_history_index();
+    for (int i = _history_counter - 2; i >= first; --i)
+        if (_history[i % MAX_PLIES] == _zobrist_hash.get_key())
             if (++count == 3) return true;
     return false;
 }
 
 bool Position::is_repeated() const
 {
-    for (int i = _history_counter - 2; i >= 0; --i)
-        if (_history[i] == _zobrist_hash.get_key()) return true;
+    const int first = first_history_index();
+    for (int i = _history_counter - 2; i >= first; --i)
+        if (_history[i % MAX_PLIES] == _zobrist_hash.get_key()) return true;
     return false;
 }
 
@@ -530,15 +540,9 @@ MoveInfo Position::do_move(Move move)
             set_enpassant_square(NO_SQUARE);
     }
 
-    if (_history_counter == MAX_PLIES)
-    {
-        // the buffer is full: keep the most recent half. Older positions cannot recur
-        // any more, the 50-move rule ends a game long before MAX_PLIES / 2 reversible plies
-        std::copy(_history + MAX_PLIES / 2, _history + MAX_PLIES, _history);
-        _history_counter = MAX_PLIES / 2;
-    }
-    assert(_history_counter < MAX_PLIES);
-    _history[_history_counter++] = _zobrist_hash.get_key();
+    // ring buffer: undo_move only steps the counter back, so making and
+    // unmaking moves leaves the keys of the game behind the root in place
+    _history[_history_counter++ % MAX_PLIES] = _zobrist_hash.get_key();
 
     return create_moveinfo(captured, prev_castling, prev_enpassant_sq,
                            enpassant, hm_counter);
